@@ -79,7 +79,13 @@ def check_conversion(ctx, kind, u1, u2, x, case):
         return
     # in place
     q2 = K(x, u1)
-    r2 = q2.to(u2, inplace=True)
+    try:
+        r2 = q2.to(u2, inplace=True)
+    except Exception as ex:
+        # the copying conversion of the same value succeeded a moment ago
+        ctx.violation('C05:inplace-conversion-raised', {'kind': kind, 'value': x, 'from': u1, 'to': u2, 'copy': [r.value, r.unit],
+                                                        'exception': type(ex).__name__ + ': ' + str(ex)[:100]}, case)
+        return
     ctx.count('inplace')
     if r2 is not q2 or q2.unit != u2 or not (q2.value == r.value):
         ctx.violation('C05:inplace-differs-from-copy', {'kind': kind, 'value': x, 'from': u1, 'to': u2, 'inplace': [q2.value, q2.unit],
